@@ -12,12 +12,14 @@ if [ "$patch" != "-" ]; then
 fi
 rsync -a --exclude .work --exclude .git --exclude replays --exclude evidence /verif/ "$S/verif/"
 export GOFLAGS=-mod=mod GOPROXY=off GOSUMDB=off GOTOOLCHAIN=local
-export VERIF_DIR="$S/verif" VERIF_REPO="$S/repo" VERIF_SKIP_RACE_BUILD="${VERIF_SKIP_RACE_BUILD:-1}"
+skiprace=1; for id in "$@"; do case $id in C09|C10|C11|C20) skiprace=0;; esac; done
+export VERIF_DIR="$S/verif" VERIF_REPO="$S/repo" VERIF_SKIP_RACE_BUILD="${VERIF_SKIP_RACE_BUILD:-$skiprace}"
 if [ "${BASELINE:-1}" = 1 ]; then
   b=$(/verif/baseline.sh "$S/repo" 2>&1 | head -1); echo "baseline: $b"
 fi
 for id in "$@"; do
-  out=$(timeout 1800 "$S/verif/run.sh" "$id" ${TIER:-quick} 2>&1); rc=$?
+  out=$(timeout ${TIMEOUT:-1800} "$S/verif/run.sh" "$id" ${TIER:-quick} 2>&1); rc=$?
+  [ -n "${SAVE:-}" ] && echo "$out" > "$SAVE.$id"
   v=$(echo "$out" | grep -a -c "^VIOLATION")
   first=$(echo "$out" | grep -a -m1 "signature:" | cut -c1-220)
   echo "check=$id rc=$rc violations=$v $first"
